@@ -469,6 +469,7 @@ func run(c *hx.Ctx) error {
 		e  evaluated
 	}
 	const batch = 4000
+	mismatches := 0
 	for lo := 0; lo < len(cases); lo += batch {
 		hi := min(lo+batch, len(cases))
 		var ps []pending
@@ -518,6 +519,9 @@ func run(c *hx.Ctx) error {
 				res.Hist("duplicate-keys-compared-up-to-order")
 			}
 			if !same {
+				if os.Getenv("C08_DEBUG") != "" {
+					fmt.Fprintf(os.Stderr, "mismatch: %s\n  real  %s\n  model %s\n", tc.String(), e.o.line(), m)
+				}
 				failing := func(c tcase) bool {
 					r, ok := evaluate(c)
 					if !ok || r.f.dupKeys {
@@ -527,7 +531,8 @@ func run(c *hx.Ctx) error {
 					return err == nil && a != r.o.line()
 				}
 				min := tc
-				if !e.f.dupKeys {
+				mismatches++
+				if !e.f.dupKeys && mismatches <= 3 { // a broken driver must not cost a shrink per case
 					min = shrink(tc, failing)
 				}
 				me, _ := evaluate(min)
